@@ -118,6 +118,10 @@ type c12World struct {
 	tblID    map[string]int
 	comID    map[string]int
 	refs     []int
+	// twins: pairs of tables over the same rows under different primary keys (same blocks, other
+	// block indices); dangling: how many live refs point at a commit that is not stored
+	twins    [][2]int
+	dangling int
 }
 
 func (w *c12World) dump() *c12Repo {
@@ -229,14 +233,45 @@ func buildC12On(seed int64, shape string, db c12Store, rs ref.Store) (*c12World,
 			specs = append(specs, GenTable(r, 1+r.Intn(2), 1+r.Intn(20), []int{0}, 0))
 		}
 	}
-	for _, s := range specs {
+	// choices added later come from a stream of their own, so that the repositories of the cases
+	// that do not take them stay what they were
+	x := rand.New(rand.NewSource(seed*7919 + 11))
+	// the same file committed again under another primary key: a key extended by further columns
+	// sorts the rows the same way (the first key column is unique), so the two tables share every
+	// block while every block index, which is computed from the key, is another object
+	rekey := x.Intn(3) == 0
+	twinOf := map[int]int{} // index in specs of a re-keyed table -> index of the table it came from
+	if rekey {
+		for i, n := 0, len(specs); i < n; i++ {
+			s := specs[i]
+			if len(s.Columns) < 2 || (i > 0 && x.Intn(2) == 0) {
+				continue
+			}
+			v := cloneSpec(s)
+			inKey := map[string]bool{}
+			for _, k := range v.PK {
+				inKey[k] = true
+			}
+			for _, c := range v.Columns {
+				if !inKey[c] && (len(v.PK) == len(s.PK) || x.Intn(2) == 0) {
+					v.PK = append(v.PK, c)
+				}
+			}
+			twinOf[len(specs)] = i
+			specs = append(specs, v)
+		}
+	}
+	specTbl := map[int]int{}
+	for si, s := range specs {
 		sum, err := IngestCSV(w.db, s.CSV(0), s.PK, IngestCfg{})
 		if err != nil {
 			return nil, err
 		}
-		if _, ok := w.tblID[string(sum)]; ok {
+		if id, ok := w.tblID[string(sum)]; ok {
+			specTbl[si] = id
 			continue
 		}
+		specTbl[si] = len(w.tblID) + 1
 		id := len(w.tblID) + 1
 		w.tblID[string(sum)] = id
 		w.tblSum[id] = sum
@@ -267,6 +302,24 @@ func buildC12On(seed int64, shape string, db c12Store, rs ref.Store) (*c12World,
 	g := GenGraph(r, n, r.Intn(5), 0.3, 0.15)
 	for i := range g {
 		g[i].Table = 1 + r.Intn(nTab)
+	}
+	for si := range specs {
+		oi, ok := twinOf[si]
+		if !ok {
+			continue
+		}
+		if a, b := specTbl[oi], specTbl[si]; a != b {
+			w.twins = append(w.twins, [2]int{a, b})
+		}
+	}
+	if len(w.twins) > 0 && x.Intn(2) == 0 {
+		// a history of one file whose key was changed back and forth: about half of the commits
+		// hold one side or the other of a pair
+		for i := range g {
+			if x.Intn(2) == 0 {
+				g[i].Table = w.twins[x.Intn(len(w.twins))][x.Intn(2)]
+			}
+		}
 	}
 	for _, c := range g {
 		com := &objects.Commit{Table: w.tblSum[c.Table], AuthorName: "a", AuthorEmail: "e", Time: time.Unix(c.Time, 0).UTC(), Message: "c" + itoa(c.ID)}
@@ -306,6 +359,39 @@ func buildC12On(seed int64, shape string, db c12Store, rs ref.Store) (*c12World,
 			w.refNames = append(w.refNames, name)
 		}
 	}
+	// dangling refs: a remote-tracking ref, tag or branch saved for a commit whose objects never
+	// arrived (interrupted fetch, refs copied from another repository). The commit would have been
+	// a child of stored commits, or a root; it is written and taken away again, and nothing stored
+	// refers to it. It roots nothing.
+	if x.Intn(5) == 0 {
+		for k, nd := 0, 1+x.Intn(2); k < nd; k++ {
+			id := n + 1 + k
+			com := &objects.Commit{Table: w.tblSum[1+x.Intn(nTab)], AuthorName: "a", AuthorEmail: "e", Time: time.Unix(g[x.Intn(n)].Time+int64(x.Intn(3)), 0).UTC(), Message: "c" + itoa(id)}
+			for p, np := 0, x.Intn(3); p < np; p++ {
+				com.Parents = append(com.Parents, w.comSum[1+x.Intn(n)])
+			}
+			buf := newBuf()
+			com.WriteTo(buf)
+			sum, err := objects.SaveCommit(w.db, buf.Bytes())
+			if err != nil {
+				return nil, err
+			}
+			if _, stored := w.comID[string(sum)]; stored {
+				continue
+			}
+			if err := objects.DeleteCommit(w.db, sum); err != nil {
+				return nil, err
+			}
+			w.comSum[id] = sum
+			name := fmt.Sprintf(kinds[x.Intn(len(kinds))], 7+k)
+			if err := w.rs.Set(name, sum); err != nil {
+				return nil, err
+			}
+			w.refs = append(w.refs, id)
+			w.refNames = append(w.refNames, name)
+			w.dangling++
+		}
+	}
 	// shallow commits: the table object (and sometimes its exclusive blocks) absent
 	if r.Intn(3) == 0 {
 		t := 1 + r.Intn(nTab)
@@ -325,6 +411,41 @@ func buildC12On(seed int64, shape string, db c12Store, rs ref.Store) (*c12World,
 		}
 	}
 	return w, nil
+}
+
+// c12StateTags describe the generated state for the measured distribution (after may be nil).
+func c12StateTags(w *c12World, before, after *c12Repo) []string {
+	tags := []string{}
+	if w.dangling > 0 {
+		tags = append(tags, "dangling-ref")
+	}
+	if len(w.twins) == 0 {
+		return tags
+	}
+	tags = append(tags, "rekeyed-tables")
+	shared := false
+	for _, p := range w.twins {
+		a, b := w.tables[p[0]], w.tables[p[1]]
+		if fmt.Sprint(a.Blocks) == fmt.Sprint(b.Blocks) && len(a.Blocks) > 0 && fmt.Sprint(a.Idxs) != fmt.Sprint(b.Idxs) {
+			shared = true
+		}
+	}
+	if shared {
+		tags = append(tags, "same-blocks-other-block-indices")
+	}
+	if after != nil && len(after.Commits) < len(before.Commits) {
+		kept := map[int]bool{}
+		for _, t := range after.Tables {
+			kept[t.ID] = true
+		}
+		for _, p := range w.twins {
+			if kept[p[0]] && kept[p[1]] {
+				tags = append(tags, "both-keys-survive-a-sweep")
+				break
+			}
+		}
+	}
+	return tags
 }
 
 // c12Usable: every surviving commit with a table must be fully readable.
@@ -568,6 +689,7 @@ func c12ReadFaultCase(ctx *Ctx, seed int64, sel int, kind string, fc, fn int, co
 			tags = append(tags, "fault-hit")
 		}
 		nt = len(v["afterRetry"].(*c12Repo).Commits) < len(before.Commits)
+		tags = append(tags, c12StateTags(w, before, v["afterRetry"].(*c12Repo))...)
 	}
 	if corpus {
 		tags, nt = []string{"corpus"}, true
@@ -641,6 +763,7 @@ func c12Case(ctx *Ctx, seed int64, shape string, fault int, corpus bool) {
 				tags = append(tags, "fault-hit")
 			}
 			nt = len(v["afterRetry"].(*c12Repo).Commits) < len(before.Commits)
+			tags = append(tags, c12StateTags(w, before, v["afterRetry"].(*c12Repo))...)
 		}
 		if corpus {
 			tags, nt = []string{"corpus"}, true
@@ -666,6 +789,11 @@ func c12Case(ctx *Ctx, seed int64, shape string, fault int, corpus bool) {
 	if shape == "big" {
 		tags = append(tags, "badger-big")
 	}
+	var after *c12Repo
+	if res["res"] == "ok" {
+		after = res["val"].(map[string]interface{})["after"].(*c12Repo)
+	}
+	tags = append(tags, c12StateTags(w, before, after)...)
 	ctx.Emit("prune", in, res, nt, tags...)
 }
 
